@@ -1,10 +1,12 @@
 #!/bin/sh
 # usage: mut1.sh <file-under-supvisors> <sed-expr> <targets...>   (scratch mutant run, dev helper)
+# a target of the form STRUCT:<PROP> runs the structural obligations of the property on the mutant
 f=$1; e=$2; shift 2
 HERE="$(cd "$(dirname "$0")/.." && pwd)"
 M=$(mktemp -d /tmp/mut.XXXXXX)
 cp -r /repo/supvisors $M/
 sed -i "$e" $M/supvisors/$f
 if diff -q /repo/supvisors/$f $M/supvisors/$f >/dev/null; then echo "MUTATION DID NOT APPLY"; rm -rf $M; exit 2; fi
-VERIF_REPO=$M timeout ${MUT_TIMEOUT:-900} /verif/.venv312/bin/python $HERE/tools/run1.py "$@" | grep -v "^   inlined"
+FN=""; for t in "$@"; do case "$t" in STRUCT:*) VERIF_REPO=$M timeout ${MUT_TIMEOUT:-900} /verif/.venv312/bin/python $HERE/tools/struct1.py "${t#STRUCT:}";; *) FN="$FN $t";; esac; done
+if [ -n "$FN" ]; then VERIF_REPO=$M timeout ${MUT_TIMEOUT:-900} /verif/.venv312/bin/python $HERE/tools/run1.py $FN | grep -v "^   inlined"; fi
 rm -rf $M
